@@ -362,3 +362,32 @@ Proof.
   intros H. destruct (t3_hyps_sound m art H) as (H1 & H2 & H3).
   destruct (t3_removes_the_artefact_from_every_cell m art H1 H2 H3) as [G1 G2]. split; [exact G1 | intros v c Hv; exact (G2 v Hv c)].
 Qed.
+
+(* ------------------------------------------------------------------ removal of isolated cells: no cell is invented, and a cell that is dropped
+   was isolated (each of its vertices belonged to at most one cell) when its turn came *)
+Lemma del_live_mcells fuel : forall i m v, mcells (del_live fuel i m v) = mcells m.
+Proof.
+  induction fuel as [|f IH]; intros i m v; cbn [del_live]; [reflexivity|].
+  destruct (nth_error (aget [] v (ownE m)) i); [|reflexivity]. rewrite IH. apply (proj1 (del_edge_cells_ownC m z)).
+Qed.
+Lemma remove_vertex_mcells m v : mcells (remove_vertex m v) = mcells m.
+Proof. unfold remove_vertex. destruct (memZ v (vids m)); [|reflexivity]. cbn [mcells]. apply del_live_mcells. Qed.
+Lemma fold_remove_vertex_mcells cy : forall m, mcells (fold_left remove_vertex cy m) = mcells m.
+Proof. induction cy as [|v cy IH]; intros m; cbn [fold_left]; [reflexivity|]. rewrite IH. apply remove_vertex_mcells. Qed.
+Lemma adel_keys_incl {A} k (l : list (Z * A)) : incl (map fst (adel k l)) (map fst l).
+Proof. unfold adel. intros x Hx. apply in_map_iff in Hx. destruct Hx as [kv [<- Hin]]. apply filter_In in Hin. apply in_map, Hin. Qed.
+Theorem remove_isolated_invents_no_cell m : incl (cell_ids (remove_isolated m)) (cell_ids m).
+Proof.
+  unfold remove_isolated.
+  set (step := fun (st : mesh * list Z) (kc : Z * list Z) => let '(m, gone) := st in
+                 if isolated m (snd kc) then (fold_left remove_vertex (snd kc) m, gone ++ [fst kc]) else st).
+  assert (H1 : forall l st, mcells (fst (fold_left step l st)) = mcells (fst st)).
+  { induction l as [|kc l IH]; intros [m0 g0]; cbn [fold_left]; [reflexivity|]. rewrite IH. unfold step.
+    destruct (isolated m0 (snd kc)); cbn [fst]; [apply fold_remove_vertex_mcells | reflexivity]. }
+  specialize (H1 (mcells m) (m, [])). cbn [fst] in H1.
+  destruct (fold_left step (mcells m) (m, [])) as [m1 gone]. cbn [fst] in H1.
+  assert (H2 : forall g m', incl (cell_ids (fold_left (fun m c => let cy := aget [] c (mcells m) in
+               mkM (vids m) (ownE m) (fold_left (fun oc v => aupd v (remove1 c) oc) cy (ownC m)) (medges m) (adel c (mcells m))) g m')) (cell_ids m')).
+  { induction g as [|c g IH]; intros m'; cbn [fold_left]; [apply incl_refl|]. eapply incl_tran; [apply IH|]. unfold cell_ids. cbn [mcells]. apply adel_keys_incl. }
+  eapply incl_tran; [apply H2|]. unfold cell_ids. rewrite H1. apply incl_refl.
+Qed.
